@@ -58,20 +58,21 @@ func mkRegionName(fq, start []byte, id uint64) []byte {
 }
 
 type simServe struct {
-	seq        int
-	addr       string
-	conn       int
-	kind       string // get | mutate | probe | meta | scan
-	table      string
-	key        []byte
-	region     string
-	hosted     bool
-	inRange    bool
-	outcome    string
-	at         time.Time
-	tag        int // request tag (from the row key's registered owner), -1 if none
-	afterEnd   bool
-	notCurrent bool // the region object's current connection is to another server
+	seq          int
+	addr         string
+	conn         int
+	kind         string // get | mutate | probe | meta | scan
+	table        string
+	key          []byte
+	region       string
+	hosted       bool
+	inRange      bool
+	outcome      string
+	at           time.Time
+	tag          int // request tag (from the row key's registered owner), -1 if none
+	afterEnd     bool
+	notCurrent   bool // the region object's current connection is to another server
+	specMismatch bool // the serialised request names another region than the call is routed by
 }
 
 type simCluster struct {
@@ -211,10 +212,20 @@ func (s *simConn) Close() {
 	}
 }
 
-func (s *simConn) QueueRPC(call hrpc.Call) { s.serve(call) }
+// Like the real region client, a connection does not send a call whose own context has already
+// ended (QueueRPC returns without a result; multi.toProto drops the call): nobody answers it.
+func (s *simConn) QueueRPC(call hrpc.Call) {
+	if call.Context().Err() != nil {
+		return
+	}
+	s.serve(call)
+}
 
 func (s *simConn) QueueBatch(ctx context.Context, calls []hrpc.Call) {
 	for _, call := range calls {
+		if call.Context().Err() != nil {
+			continue
+		}
 		s.serve(call)
 	}
 }
@@ -251,6 +262,22 @@ func (s *simConn) serve(call hrpc.Call) {
 	}
 	if reg := call.Region(); reg != nil {
 		sv.region = string(reg.Name())
+		// what the request says on the wire must name the region it was routed by
+		var spec *pb.RegionSpecifier
+		func() {
+			defer func() { recover() }()
+			switch m := call.ToProto().(type) {
+			case *pb.GetRequest:
+				spec = m.GetRegion()
+			case *pb.MutateRequest:
+				spec = m.GetRegion()
+			case *pb.ScanRequest:
+				spec = m.GetRegion()
+			}
+		}()
+		if spec != nil && !bytes.Equal(spec.GetValue(), reg.Name()) {
+			sv.specMismatch = true
+		}
 		// the client's own state designates another connection for this region right now
 		if rc := reg.Client(); rc != nil && rc.Addr() != s.addr {
 			sv.notCurrent = true
